@@ -17,7 +17,7 @@ def run(ctx):
         ctx.model_check("state/PathDBCrash", cfg, timeout=ctx.pick(3600, 14400), name=os.path.basename(cfg),
                         workers=ctx.pick(4, 8), coverage=ctx.thorough)
     tp = os.path.join(ctx.scratch, "trace.ndjson")
-    s, _ = ctx.drive(drv, ["-mode", "record", "-trace", tp, "-n", ctx.pick(5, 60), "-steps", ctx.pick(12, 16),
+    s, _ = ctx.drive(drv, ["-mode", "record", "-trace", tp, "-n", ctx.pick(5, 60), "-steps", ctx.pick(14, 18),
                            "-images", ctx.pick(320, 10000)], name="c20-record", timeout=ctx.pick(5400, 21600))
     kf = s.get("counts", {}).get("KF1:stale-journal", 0)
     if kf:
